@@ -261,6 +261,8 @@ def deep_tree(s, rng):
         pages = [base + b"p:page%02d|" % i for i in range(n)]                 # ascending: a right chain
     else:
         pages = [base + b"".join(b"p:d%d|" % j for j in range(i + 1)) for i in range(n)]   # a child chain
+    s.notes = getattr(s, "notes", [])
+    s.notes.append("deep_tree_%d" % n)
     for i in range(0, n, 8):
         s.do(3, [pages[i:i + 8], rng.randint(0, 1)])
     if rng.random() < 0.5:
@@ -292,6 +294,8 @@ def many_ids(s, rng):
             s.do(6, [[b"s:http|h:org|h:one%d|" % k]])
         if s.tr.last == before:
             return                       # nothing is created any more: give up quietly (the usual checks still apply)
+    s.notes = getattr(s, "notes", [])
+    s.notes.append("many_ids_restart_at_%d" % s.tr.last)
     s.do(13, [s.tr.dflt, [[p, kd] for p, kd in s.tr.rules]])
     s.do(6, [[b"s:http|h:org|h:after%d|" % target]])
     s.do(2, [b"s:http|h:org|h:afterpage%d|p:a|" % target, 1])
